@@ -245,6 +245,11 @@ fn gen_c04(r: &mut Rng, tier: Tier, job: u64) -> Plan {
                 1 => vec![second.clone(), big, second],
                 _ => vec![second, big],
             };
+            // one job in ten: the giant record is one value short, is refused, and the shim skips
+            // it and carries on (if the tree lets it, the client is owed the other rows intact --
+            // full packets of the refused row have long left by then)
+            let skip_giant = !open_last && lens.len() >= 2 && r.chance(1, 10);
+            let giant_at = rows.iter().position(|rw| rw.iter().any(|c| matches!(c, Cell::Bytes(Blob::Gen { .. }) | Cell::VecBytes(Blob::Gen { .. })))).unwrap_or(0) as u32;
             cmds.push(Cmd {
                 seq: {
                     let c = r.coin();
@@ -255,8 +260,8 @@ fn gen_c04(r: &mut Rng, tier: Tier, job: u64) -> Plan {
                     units: vec![Unit::Rows(RowsUnit {
                         cols,
                         rows,
-                        write_row: !open_last && r.coin(),
-                        last_row_ended: !open_last && r.coin(),
+                        write_row: skip_giant || (!open_last && r.coin()),
+                        last_row_ended: skip_giant || (!open_last && r.coin()),
                         close: match r.below(if open_last { 4 } else { 3 }) {
                             0 | 1 => Close::Finish,
                             2 => Close::Drop,
@@ -266,8 +271,8 @@ fn gen_c04(r: &mut Rng, tier: Tier, job: u64) -> Plan {
                                 msg: gen_errmsg(r),
                             },
                         },
-                        contra: None,
-                        recover: None,
+                        contra: if skip_giant { Some(Contra::TooFewCols { row: giant_at }) } else { None },
+                        recover: if skip_giant { Some((crate::model::CARRY_ON, Blob::lit(b""))) } else { None },
                     })],
                     end: End::Implicit,
                     ret_err: None,
